@@ -324,7 +324,7 @@ func withRef(sp lookupSpec) lookupSpec {
 		getf := func(name string, def float32) float32 {
 			for _, a := range attrs {
 				if a.Name == name {
-					return a.F
+					return a.Float()
 				}
 			}
 			return def
@@ -340,7 +340,7 @@ func withRef(sp lookupSpec) lookupSpec {
 		getfs := func(name string) []float32 {
 			for _, a := range attrs {
 				if a.Name == name {
-					return a.Floats
+					return a.FloatList()
 				}
 			}
 			return nil
